@@ -6,6 +6,9 @@ import Driver.QpTail
 import Driver.IntraPeriod
 import Driver.Dpb
 import Driver.RangeCoder
+import Driver.Srm
+import Driver.Segments
+import Driver.Obu
 
 def main (args : List String) : IO UInt32 := do
   match args with
@@ -17,4 +20,7 @@ def main (args : List String) : IO UInt32 := do
   | ["intraperiod"] => Driver.intraPeriodMain; return 0
   | ["dpb"] => Driver.dpbMain; return 0
   | ["ec"] => Driver.ecMain; return 0
+  | ["srm"] => Driver.srmMain; return 0
+  | ["seg"] => Driver.segMain; return 0
+  | ["obu"] => Driver.obuMain; return 0
   | _ => IO.eprintln "usage: svtmodel <subcommand>  (input on stdin, one op per line)"; return 2
